@@ -62,3 +62,31 @@ CHECKS["C02"] = {
         {"name": "TestConcurrentStress", "quick": {}, "thorough": {"race": True, "timeout": 3000}},
     ],
 }
+
+CHECKS["C18"] = {
+    "pkg": "./c18/",
+    "level": "exploration",
+    "technique": ("property-based testing (rapid): placement invariants on ShardAssignment/ModifyShardAssignment + exhaustive walk over nodes 1..12 x shards 1..64 x rf x start; "
+                  "model-based stateful test of the production master StateManager over an in-memory state.Repository with harness-owned event delivery"),
+    "rule": ("TestAssignPure/TestAssignExhaustive case non-trivial = replica factor >= 2 with >= 2 shards, or at least one grow step; "
+             "TestAssignRejects = every case (an invalid input); TestMasterHistory history non-trivial = a delivered node failure removed the leader of a shard "
+             "that had another live replica (leader re-elected), or a delivered node start revived an offline shard; "
+             "distinct = hash of (node list, shards, rf, start[, grow steps]) resp. of the complete operation/delivery log"),
+    "level_text": ("Generated-input exploration. Placement: every (nodes<=12, shards<=64, rf<=nodes, fixed start) combination is walked once (41 600) with a grow step, "
+                   "plus random node-id lists/orders, the production random start (-1) and repeated grows over changed node sets. Leadership: thousands of "
+                   "event histories (<=45 operations, 1-7 nodes, 3 databases) through the real processEvent; after every event the in-memory state and the published "
+                   "/storage/state are compared with a model built only from the delivered events: live nodes, online <=> some replica alive, leader is a live replica, "
+                   "offline => OfflineShard/NoLeader; what the master stores on create/grow is checked against the nodes registered at that moment."),
+    "level_note": ("Trusted: the in-memory repository's etcd semantics (key-ordered List, one watch event per Put, per-watcher FIFO); events are fed synchronously through the "
+                   "verif seam VerifProcessEvent instead of the channel goroutine; the global math/rand source is pinned from a rapid draw. Not explored: the List->Watch "
+                   "gap of discovery, repository errors/timeouts, concurrent GetStorageState readers."),
+    "assumptions": ["storage node ids are positive and unique (myid)", "database configs have numOfShard>=1 and replicaFactor>=1 (broker validation)",
+                    "each watcher delivers its events in revision order; order between watchers is arbitrary",
+                    "liveness is judged against the node events delivered to the master; equality with the repository is required only after quiescence"],
+    "tests": [
+        {"name": "TestAssignPure", "quick": 5000, "thorough": {"checks": 100000, "shards": 4}},
+        {"name": "TestAssignExhaustive", "quick": {}, "thorough": {}},
+        {"name": "TestAssignRejects", "quick": 2000, "thorough": {"checks": 20000, "shards": 1}},
+        {"name": "TestMasterHistory", "quick": 3000, "thorough": {"checks": 40000, "shards": 16}},
+    ],
+}
